@@ -295,11 +295,11 @@ _SHORT = {'tag': 'tag', 'strip': 'strip', 'remove_empties': 're',
 def opt_key(opts):
     """Short printable key naming only the non-default options."""
     parts = []
-    for k in list(OPTION_AXES) + list(PRUNE_AXES):
+    for k in list(OPTION_AXES) + list(PRUNE_AXES) + list(EXTRA_AXES):
         if k not in opts:
             continue
         v = opts[k]
-        d = (OPTION_AXES.get(k) or PRUNE_AXES.get(k))[0]
+        d = (OPTION_AXES.get(k) or PRUNE_AXES.get(k) or EXTRA_AXES[k])[0]
         if v == d:
             continue
         parts.append(_SHORT[k] if v is True else '%s=%s' % (_SHORT[k], v))
@@ -309,7 +309,7 @@ def opt_key(opts):
 def kwargs_of(opts):
     """Keyword arguments for tdda.rexpy.extract / Extractor."""
     return dict((k, v) for (k, v) in opts.items()
-                if k in OPTION_AXES or k in PRUNE_AXES)
+                if k in OPTION_AXES or k in PRUNE_AXES or k in EXTRA_AXES)
 
 
 # ---------------------------------------------------------------- sampling
@@ -634,3 +634,201 @@ def _family_points():
 
 
 FAMILY_OPTION_POINTS = _family_points()
+
+
+# ===================================================================== round 3
+# Additions only (nothing above changes).
+#
+#   UCLASS_REPS       [(char, label)]: one representative of EVERY Unicode
+#                     general category (Cs excluded: lone surrogates are
+#                     outside), with a second one wherever the category is
+#                     split by a predicate that decides a class somewhere:
+#                     str.isspace / isdigit / isalpha / isalnum, `re` \s \w \d
+#                     and the third-party `regex` module's \s \w \d (tdda's
+#                     relib prefers `regex`; the property reads the result
+#                     with `re`).  The disagreement set was computed by a scan
+#                     of the BMP (2025-09, CPython 3 `re` vs regex):
+#                       \s  : Cc U+001C..U+001F         (re yes, regex no)
+#                       \w  : Mn Mc Me Pc, Cf U+200C/D, Alphabetic So
+#                             (U+24B6..), Cn skew      (regex yes, re no)
+#                             No                        (re yes, regex no)
+#                       \d vs str.isdigit: No U+00B2... (isdigit, not \d)
+#                     plus two astral characters.
+#   uclass_sets()     example sets that put every representative (a) alone,
+#                     doubled, after a letter; (b) in a VARIABLE fragment (run
+#                     lengths 1 and 2; beside a varying letter); (c) at the
+#                     same position as every other representative (all pairs:
+#                     one shape with a non-constant fragment when the two fall
+#                     in one coarse class, two shapes otherwise)
+#   META_ROLE_STRINGS examples in which every regex metacharacter appears in
+#                     every syntactic role it can play in a regular
+#                     expression: quantifier braces after a character / at
+#                     the start / after a class, group openers (?: (?P< (?= (?#
+#                     (?i), bracket expressions (open, closed, negated,
+#                     range, POSIX class, set-operation doubles), escapes
+#                     (class, back-reference, anchor, octal, trailing), anchors
+#                     in the middle, alternation, * + ? after a character /
+#                     doubled / lazy / possessive / leading, verbose-mode '#'
+#   meta_role_sets()  each such string alone and with same-shape partners that
+#                     keep the metacharacters constant and vary the letters /
+#                     the digits / a prefix / a suffix around them
+#   EXTRA_AXES        full_escape [False, True]: an extract() option outside
+#                     the 240-point lattice, enumerated only where named
+#   META_OPTION_POINTS  the 12 FAMILY_OPTION_POINTS x full_escape off/on
+#   DICT_FORMS        ('dict', 'counter', 'odict') mapping forms of a
+#                     frequency dictionary
+#   count_vectors(n, full)  count vectors over {1,2,3}: all 3^n when `full`,
+#                     else the uniform ones and the two cycles
+#   zero_count_dicts(pool1, pool2)
+#                     frequency dictionaries with zero-count entries: {s:0},
+#                     {s:0,t:0}, and every ORDERED pair with exactly one zero
+#                     ({s:0,t:n}, {s:n,t:0}; n in {1,2}); a zero-count entry
+#                     was supplied zero times and is not an example
+#   REAL_SEEDS / REAL_PRESTATES   the layer run on the REAL random module:
+#                     seeds {0, 1, None}, global generator pre-states
+#                     random.Random(k).getstate() for k in REAL_PRESTATES
+
+UCLASS_REPS = [(chr(cp), label) for (cp, label) in [
+    (0x01C5, 'Lt'), (0x02B0, 'Lm'), (0x05D0, 'Lo'), (0x4E00, 'Lo-numeric'),
+    (0x0301, 'Mn'), (0x0903, 'Mc'), (0x0488, 'Me'),
+    (0x2167, 'Nl'), (0x00B2, 'No-isdigit'), (0x00BD, 'No'),
+    (0x203F, 'Pc'), (0x2013, 'Pd'), (0x2045, 'Ps'), (0x2046, 'Pe'),
+    (0x00AB, 'Pi'), (0x00BB, 'Pf'), (0x00A1, 'Po'),
+    (0x00D7, 'Sm'), (0x20AC, 'Sc'), (0x00A8, 'Sk'), (0x00A9, 'So'),
+    (0x24B6, 'So-alphabetic'),
+    (0x00A0, 'Zs'), (0x3000, 'Zs-wide'), (0x2028, 'Zl'), (0x2029, 'Zp'),
+    (0x001C, 'Cc-isspace'), (0x001F, 'Cc-isspace2'), (0x0085, 'Cc-NEL'),
+    (0x007F, 'Cc'), (0x200C, 'Cf-joiner'), (0x00AD, 'Cf'),
+    (0xE000, 'Co'), (0x0378, 'Cn'), (0x088F, 'Cn-skew'),
+    (0x1D7CE, 'Nd-astral'), (0x1F600, 'So-astral'),
+]]
+assert len(set(c for (c, _) in UCLASS_REPS)) == len(UCLASS_REPS)
+
+
+def uclass_sets():
+    chars = [c for (c, _) in UCLASS_REPS]
+    for c in chars:
+        yield [c]
+        yield [c + c]
+        yield ['a' + c]
+        yield [c, c + c]
+        yield ['a' + c, 'b' + c]
+        yield ['a' + c + 'b', 'c' + c + c + 'd']
+        yield [c + '1', c + c + '22']
+    for (i, c1) in enumerate(chars):
+        for c2 in chars[i + 1:]:
+            yield ['a' + c1 + '1', 'b' + c2 + '2']
+
+
+META_ROLE_STRINGS = [
+    # braces
+    '{', '}', '{}', '{2}', 'a{', 'a}', 'a{2}', 'row{2}', 'x{1,3}y', 'a{,3}',
+    'a{3,}', 'a{b}', '{a}', 'k{0}', 'ab{2}{3}', '1{2}', '-{2}', 'a{2}?',
+    'a{ 2}', '{"id": 12}',
+    # parentheses
+    '(', ')', '()', '(a)', 'a(', 'a)', '(?:a)', '(?:', '(?P<n>a)', '(?P<',
+    '(?P=n)', '(?=a)', '(?!a)', '(?<=a)b', '(?#c)', '(?i)a', 'a(?i)', '(?',
+    '(a)(b)', '((a))', '(a|b)',
+    # brackets
+    '[', ']', '[]', '[a-', '[a-z]', '[^a]', '[a', 'a]', 'a[', '[]a]',
+    '[[:alpha:]]', '[a-z]+', '[z-a]', '[\\d]', 'a[[b', 'a&&b', 'a--b',
+    'a~~b', 'a||b',
+    # backslash
+    '\\', '\\\\', 'a\\', '\\d', '\\D+', '\\w+', '\\s', '\\1', '(a)\\1',
+    '\\b', 'a\\Z', '\\A', '\\n', '\\0', '\\x41', '\\u0041', '\\.', '\\q',
+    '\\g<1>', '\\N{DASH}',
+    # anchors
+    '$', '^', 'a$', '$a', 'a$b', '^a', 'a^', 'a^b', '^a$', '^$', '$^',
+    # alternation
+    '|', 'a|b', 'a|', '|a', 'a||',
+    # repetition
+    '*', '+', '?', 'a*', 'a+', 'a?', 'a*?', 'a+?', 'a??', 'a*+', 'a++',
+    'a?+', 'a**', '*a', '+a', '?a', '.*', '.+', 'a.b', '.', '1+1', '2*3',
+    # verbose-mode comment, quotes
+    'a#b', ' #c', '#', 'a #', '"a"', "'a'",
+]
+assert len(set(META_ROLE_STRINGS)) == len(META_ROLE_STRINGS)
+
+_LETTER_SHIFT = dict(zip('abcknqrowxyzidZAPD', 'bcdlmrsvpyzwjeYBQE'))
+_DIGIT_SHIFT = dict(zip('0123456789', '1234567890'))
+
+
+def _shift(s, table):
+    return ''.join(table.get(c, c) for c in s)
+
+
+def meta_role_sets():
+    seen = set()
+    for s in META_ROLE_STRINGS:
+        for xs in ([s], [s, _shift(s, _LETTER_SHIFT)],
+                   [s, _shift(s, _DIGIT_SHIFT)], [s, 'q' + s], [s, s + 'q'],
+                   [s, s + s]):
+            xs = _dedup(xs)
+            key = tuple(xs)
+            if key in seen or (len(xs) < 2 and xs[0] != s):
+                continue
+            seen.add(key)
+            yield xs
+
+
+EXTRA_AXES = OrderedDict([('full_escape', [False, True])])
+_SHORT['full_escape'] = 'fullesc'
+
+
+def _meta_points():
+    return [dict(o, full_escape=fe) for fe in (False, True)
+            for o in FAMILY_OPTION_POINTS]
+
+
+META_OPTION_POINTS = _meta_points()
+
+DICT_FORMS = ('dict', 'counter', 'odict')
+
+
+def as_mapping(d, form):
+    """The mapping `d` ({str: int}, ordered) as dict / Counter / OrderedDict."""
+    import collections
+    if form == 'dict':
+        return dict(d)
+    if form == 'counter':
+        c = collections.Counter()
+        for (k, v) in d.items():
+            c[k] = v                # keeps zero counts, unlike update()
+        return c
+    if form == 'odict':
+        return OrderedDict(d)
+    raise ValueError(form)
+
+
+def count_vectors(n, full=False):
+    if full:
+        return [list(t) for t in itertools.product((1, 2, 3), repeat=n)]
+    out = [[k] * n for k in (1, 2, 3)]
+    out.append([(1, 2, 3)[i % 3] for i in range(n)])
+    out.append([(3, 2, 1)[i % 3] for i in range(n)])
+    return out
+
+
+def with_counts(xs, counts):
+    d = OrderedDict()
+    for (x, n) in zip(xs, counts):
+        d[x] = n
+    return d
+
+
+def zero_count_dicts(pool1, pool2):
+    for s in pool1:
+        yield OrderedDict([(s, 0)])
+    for (i, s) in enumerate(pool2):
+        for (j, t) in enumerate(pool2):
+            if i == j:
+                continue
+            if i < j:
+                yield OrderedDict([(s, 0), (t, 0)])
+            for n in (1, 2):
+                yield OrderedDict([(s, 0), (t, n)])
+                yield OrderedDict([(s, n), (t, 0)])
+
+
+REAL_SEEDS = [0, 1, None]
+REAL_PRESTATES = [11, 12]
